@@ -210,6 +210,44 @@ def canonicalise_closures(raw, log=None):
     return ren
 
 
+def canonicalise_modules(raw, vocabulary, vocab_fields, strip_lt, log=None):
+    """Items moved to another module (file split / merge): a type or free function whose name is unique in the crate
+    and in the vocabulary, missing under its vocabulary path and present under a new one, gets its vocabulary path
+    back (textual replacement of the qualified name throughout the facts)."""
+    import re as _re
+    cur_adts = {strip_lt(a["path"]) for a in raw.get("adts", []) if (a.get("span") or {}).get("file", "").startswith("regexml/")}
+    ref_adts = set(vocab_fields or {})
+    cur_fns = {strip_lt(b["path"]) for b in raw["bodies"] if b.get("kind") == "Fn" and "{" not in b["path"] and "<" not in b["path"]}
+    ref_fns = {p for p in vocabulary if "<" not in p and "{" not in p}
+    # free functions of the vocabulary: paths whose parent is not a known type
+    ref_types = {p for p in ref_adts}
+    ren = {}
+
+    def plan(cur, ref):
+        new = [p for p in cur if p not in ref]
+        lost = [p for p in ref if p not in cur]
+        for n in new:
+            name = n.split("::")[-1]
+            cands = [l for l in lost if l.split("::")[-1] == name]
+            same_new = [m for m in new if m.split("::")[-1] == name]
+            if len(cands) == 1 and len(same_new) == 1 and n.count("::") >= 1:
+                ren[n] = cands[0]
+
+    plan(cur_adts, ref_adts)
+    plan({p for p in cur_fns if "::".join(p.split("::")[:-1]) not in cur_adts}, {p for p in ref_fns if "::".join(p.split("::")[:-1]) not in ref_types and p.count("::") == 1})
+    if not ren:
+        return {}
+    s = json.dumps(raw)
+    for o, n in sorted(ren.items(), key=lambda x: -len(x[0])):
+        s = _re.sub(r"(?<![A-Za-z0-9_:])%s(?![A-Za-z0-9_])" % _re.escape(o), n.replace("\\", "\\\\"), s)
+    new = json.loads(s)
+    raw.clear()
+    raw.update(new)
+    if log:
+        log("items given back their vocabulary module paths: %s" % ren)
+    return ren
+
+
 def canonicalise_fields(raw, vocab_fields, strip_lt, log=None):
     """Struct fields of the crate's own types: a field that was renamed is given back its vocabulary name when its
     type identifies it (exactly one field of that type lost its name and exactly one new name of that type appeared),
